@@ -266,7 +266,9 @@ class DataPacketReceiver(Elaboratable):
                     with m.If(data_bytes_remaining > 4):
                         m.d.ss += data_bytes_remaining.eq(data_bytes_remaining - 4)
 
-                    with m.Else():
+                    # Otherwise, move on to checking our CRC -- unless we've just bailed out above;
+                    # an aborted packet has already been reported bad and must not be reported again.
+                    with m.Elif((sink.ctrl & source.valid) == 0):
                         m.next = "CHECK_CRC32"
 
 
